@@ -131,3 +131,31 @@ Proof. exact @iexec_is_irun. Qed.
 
 Print Assumptions C04_concrete_execution_is_walk.
 Print Assumptions C04_concrete_execution_control.
+
+(* ------------------------------------------------------------------------------------------------------------
+   Extension (third round): the global-graph helpers next_blocks_global / prev_blocks_global / leaf_block_global and the
+   solver's _calculate_reachin / _calculate_livein are REGENERATED from the Python source (tools/translate_graph.py ->
+   Gen/GraphGen.v, object graph through a fixed fingerprinted glue table) and proved equal to the model's next_global /
+   prev_global / leaf_global / reachin / livein on every block of every function, for every domain. *)
+From Coq Require Import List String NArith ZArith Bool Arith.
+From Tealer Require Import Tables Syntax Parse Cfg StackAst Analysis GraphGen SolverLemmas TotalSolver GraphGenLemmas.
+
+Theorem C04_global_graph_helpers_regenerated :
+  forall (f : func) (b : block),
+       NoDup (ids f) ->
+       In b (fn_blocks f) ->
+       prev_blocks_global_gen f (b_idx b) = prev_global f b /\
+       leaf_block_global_gen f (b_idx b) = Some (leaf_global f b) /\ (main_name_fresh f -> next_blocks_global_gen f (b_idx b) = next_global f b).
+Proof. exact @graph_gen_eq_In. Qed.
+
+Theorem C04_solver_neighbourhoods_regenerated :
+  forall (T : Type) (univ null : T) (union inter : T -> T -> T) (single : instr -> nat -> list sval -> T * T) (f : func) 
+         (b : block) (st : state T),
+       NoDup (ids f) ->
+       In b (fn_blocks f) ->
+       calculate_reachin_gen T univ null union inter single f (b_idx b) st = reachin T univ null union inter single f st b /\
+       (main_name_fresh f -> calculate_livein_gen T null union inter f (b_idx b) st = livein T null union inter f st b).
+Proof. exact @solver_gen_eq_In. Qed.
+
+Print Assumptions C04_global_graph_helpers_regenerated.
+Print Assumptions C04_solver_neighbourhoods_regenerated.
